@@ -352,6 +352,25 @@ func (c *ctx) famGetByPath() {
 				c.checkNode("Value.GetByPath", trig, v.Node, p.V)
 				c.checkDesc("Value.GetByPath", trig, v, p)
 			})
+			// the same node reached in two hops: from every intermediate node on the way (whose byte window ends
+			// where that node ends, not where the message ends) the rest of the path must lead to it as well
+			for k := 1; k < len(nat); k++ {
+				k := k
+				c.guard("Node.GetByPath", trig+",from-inner-node", func() {
+					mid := c.root().GetByPath(tutil.Paths(nat[:k])...)
+					if mid.IsError() {
+						return // judged by the direct lookup of that node
+					}
+					c.checkNode("Node.GetByPath", trig+",from-inner-node", mid.GetByPath(tutil.Paths(nat[k:])...), p.V)
+				})
+				c.guard("Value.GetByPath", trig+",from-inner-node", func() {
+					mid := c.rootV().GetByPath(tutil.Paths(nat[:k])...)
+					if mid.IsError() {
+						return
+					}
+					c.checkNode("Value.GetByPath", trig+",from-inner-node", mid.GetByPath(tutil.Paths(nat[k:])...).Node, p.V)
+				})
+			}
 			if bin != nil {
 				c.guard("Node.GetByPath", trig+",binkey", func() {
 					c.checkNode("Node.GetByPath", trig+",binkey", c.root().GetByPath(tutil.Paths(bin)...), p.V)
@@ -760,6 +779,47 @@ func (c *ctx) famMany() {
 								}
 							}
 						})
+					}
+				}
+			}
+		}
+		// maps: one request that spells its keys in two ways (natural str / int key and raw bin key)
+		if p.V.T == tbin.MAP && len(ch) >= 2 {
+			for i := range ch {
+				for j := range ch {
+					if i == j || ch[i].Bin.K == 0 || ch[j].PE.K == 'b' {
+						continue
+					}
+					for _, binFirst := range []bool{false, true} {
+						for _, api := range []string{"GetMany", "Gets"} {
+							i, j, binFirst, api := i, j, binFirst, api
+							trig := fmt.Sprintf("%s,paths=2,mixed-key-spellings", k)
+							c.guard("Node."+api, trig, func() {
+								pns := []generic.PathNode{{Path: ch[j].PE.Path()}, {Path: ch[i].Bin.Path()}}
+								want := []*tbin.Val{ch[j].V, ch[i].V}
+								if binFirst {
+									pns[0], pns[1] = pns[1], pns[0]
+									want[0], want[1] = want[1], want[0]
+								}
+								var err error
+								if api == "GetMany" {
+									err = pn.GetMany(pns, &generic.Options{})
+								} else {
+									err = pn.Gets(pns, &generic.Options{})
+								}
+								if err != nil {
+									c.viol("Node."+api, trig, "error", "%v", err)
+									return
+								}
+								for x := range pns {
+									if pns[x].Node.IsEmpty() {
+										c.viol("Node."+api, trig, "present-not-returned", "item %d (%v) of a mixed request: empty node, want %s", x, pns[x].Path, want[x])
+									} else {
+										c.checkNode("Node."+api, trig, pns[x].Node, want[x])
+									}
+								}
+							})
+						}
 					}
 				}
 			}
